@@ -6,7 +6,8 @@ import numpy as np
 from . import score_common as sc
 from .core import Prop, bits2f, exc_class
 
-CONTAINERS = ["list_int", "list_float", "tuple_int", "np_int64", "np_int32", "np_float64", "pl_int", "pl_float", "list_mixed"]
+CONTAINERS = ["list_int", "list_float", "tuple_int", "np_int64", "np_int32", "np_float64", "pl_int", "pl_float", "list_mixed",
+              "np_uint8", "np_uint32", "pl_uint32", "np_int8"]
 ENTRY = ["score", "score", "ident", "decompose", "bias", "marginal", "iso"]
 
 
@@ -31,6 +32,10 @@ def conv(vals, container):
         return pl.Series([float(v) for v in vals], dtype=pl.Float64)
     if container == "list_mixed":
         return [int(v) if i % 2 else float(v) for i, v in enumerate(vals)]
+    if container in ("np_uint8", "np_uint32", "np_int8"):
+        return np.array(vals, dtype=container[3:])
+    if container == "pl_uint32":
+        return pl.Series([int(v) for v in vals], dtype=pl.UInt32)
     raise KeyError(container)
 
 
@@ -89,11 +94,27 @@ class C17(Prop):
                 # each column starts with a whole number written as int and continues with non-integer floats
                 c["z"] = [z[0]] + [v + rng.choice([0.5, 0.25, 0.75]) for v in z[1:]]
                 c["z2"] = [z[0] + 1] + [v + rng.choice([0.5, 0.25, 1.5]) for v in z[1:]]
-            if big and c["container"] == "np_int32":
+            if big and c["container"] in ("np_int32", "np_uint8", "np_int8"):
                 c["container"] = "np_int64"
-            if big and c.get("zcontainer") == "np_int32":
+            if max(c["y"] + c["z"] + (c["w"] or [0])) > 100 and not big:
+                pass
+            if c["container"] == "np_int8" or c.get("zcontainer") == "np_int8" or c["container"] == "np_uint8" or c.get("zcontainer") == "np_uint8":
+                c["y"] = [min(v, 100) for v in c["y"]]
+                c["z"] = [min(v, 100) for v in c["z"]]
+            if big and c.get("zcontainer") in ("np_int32", "np_uint8", "np_int8"):
                 c["zcontainer"] = "np_int64"
-            if ep == "score":
+            if ep == "score" and rng.random() < 0.3:
+                # ElementaryScore with eta given as a Python int, as in its docstring; eta strictly inside the data range so that
+                # the score is non-zero on both sides (y < eta <= z and z < eta <= y)
+                lo_, hi_ = min(c["y"] + c["z"]), max(c["y"] + c["z"])
+                c.update(kind="elementary", elem_f=rng.choice(["mean", "mean", "median", "expectile", "quantile"]),
+                         eta=rng.randint(min(lo_ + 1, hi_), hi_), h=0, level=rng.choice([0.5, 0.25, 0.8]))
+                if not big and rng.random() < 0.5:
+                    c["container"] = rng.choice(["np_uint8", "np_uint32", "pl_uint32", "np_int8"])
+                    c["y"] = [min(v, 100) for v in c["y"]]
+                    c["z"] = [min(v, 100) for v in c["z"]]
+                    c["eta"] = min(c["eta"], 100)
+            elif ep == "score":
                 kind = rng.choice(["hes", "hqs", "squared_error", "poisson", "gamma", "pinball", "logloss"])
                 c.update(kind=kind, h=rng.choice([-2, -1, 0, 1, 2, 3, 0.5, 2.5, -1.0]), level=rng.choice([0.5, 0.25, 0.8]))
                 if kind == "logloss":
@@ -105,9 +126,15 @@ class C17(Prop):
                 if ep == "iso" and c["f"] in ("quantile", "median"):
                     c["w"] = None
             elif ep == "decompose":
-                c.update(kind=rng.choice(["squared_error", "poisson", "pinball", "hes"]), h=rng.choice([2, 1, 3]), level=rng.choice([0.5, 0.25]))
+                c.update(kind=rng.choice(["squared_error", "poisson", "poisson", "pinball", "hes"]), h=rng.choice([2, 1, 3]), level=rng.choice([0.5, 0.25]))
                 if c["kind"] == "pinball":
                     c["w"] = None
+                if c["kind"] == "poisson" and rng.random() < 0.6:
+                    # zero counts at the smallest forecasts: the domain repair runs (with the caller's weight container)
+                    order = sorted(range(n), key=lambda i: c["z"][i])
+                    for i in order[: rng.randint(1, max(1, n // 2))]:
+                        c["y"][i] = 0
+                    c["w"] = c["w"] or [rng.randint(1, 4) for _ in range(n)]
             else:
                 c["feature"] = [rng.randint(0, 6) for _ in range(n)]
                 c["n_bins"] = rng.randint(2, 4)
@@ -128,6 +155,12 @@ class C17(Prop):
                 z = rows if case["rows2d"] == "list" else tuple(tuple(r) for r in rows)
         w = None if case["w"] is None else conv(case["w"], container)
         ep = case["stream"]
+        if ep == "score" and case["kind"] == "elementary":
+            from model_diagnostics.scoring import ElementaryScore
+
+            sf = ElementaryScore(eta=case["eta"], functional=case["elem_f"], level=case["level"])
+            per = np.asarray(sf.score_per_obs(y, z), dtype=float)
+            return {"vals": [float(v) for v in per] + [float(sf(y, z, w))]}
         if ep == "score":
             if case["kind"] == "logloss":
                 z = np.asarray(case["z"], dtype=float) / (max(case["z"]) + 1)
@@ -174,7 +207,7 @@ class C17(Prop):
         return out
 
     def model_request(self, case):
-        if case["stream"] != "score" or case["big"]:
+        if case["stream"] != "score" or case["big"] or case.get("kind") == "elementary":
             return None
         z = [v / (max(case["z"]) + 1) for v in case["z"]] if case["kind"] == "logloss" else [float(v) for v in case["z"]]
         return sc.score_request(case["kind"], float(case["h"]), case["level"], [float(v) for v in case["y"]], z,
